@@ -143,11 +143,59 @@ func (e *Engine) finishContracts() (err error) {
 			pre = []string{"true"}
 		}
 		txt := "forall " + strings.Join(binders, ", ") + " :: " + m[3] + " " + strings.Join(pre, " && ") + " ==> " + strings.Join(post, " && ")
+		var heapInst [][3]string // heap id, base, binder
+		if len(c.Instance) > 0 {
+			// The axiom is an instance of the verified statement (forall heaps, parameters: type invariants && requires ==> ensures):
+			// each parameter is replaced by the given term over new bound variables, and a heap by a heap whose
+			// arrays at the given bases are bound variables; the parameters' type invariants become hypotheses.
+			body := strings.Join(pre, " && ") + " ==> " + strings.Join(post, " && ")
+			var ibind string
+			var guards []string
+			for _, in := range c.Instance {
+				switch {
+				case strings.HasPrefix(in, "forall "):
+					ibind = strings.TrimPrefix(in, "forall ")
+				case strings.HasPrefix(in, "heap "):
+					f := strings.SplitN(strings.TrimPrefix(in, "heap "), ":=", 2)
+					if len(f) != 2 {
+						return fmt.Errorf("axiomatize %s: instance heap <id> := <base> <binder>, ...", n)
+					}
+					for _, ba := range strings.Split(f[1], ",") {
+						w := strings.Fields(ba)
+						if len(w) != 2 {
+							return fmt.Errorf("axiomatize %s: instance heap: %q", n, ba)
+						}
+						heapInst = append(heapInst, [3]string{strings.TrimSpace(f[0]), w[0], w[1]})
+					}
+				default:
+					f := strings.SplitN(in, ":=", 2)
+					if len(f) != 2 {
+						return fmt.Errorf("axiomatize %s: instance <param> := <term>", n)
+					}
+					pn, repl := strings.TrimSpace(f[0]), strings.TrimSpace(f[1])
+					var pt types.Type
+					for _, p := range fn.Params {
+						if p.Name() == pn {
+							pt = p.Type()
+						}
+					}
+					if pt == nil {
+						return fmt.Errorf("axiomatize %s: instance: no parameter %s", n, pn)
+					}
+					body = regexp.MustCompile(`\b`+regexp.QuoteMeta(pn)+`\b`).ReplaceAllString(body, repl)
+					guards = append(guards, fmt.Sprintf("typeinv(%q, %s)", typeKey(pt), repl))
+				}
+			}
+			if ibind == "" || len(guards) != len(fn.Params) {
+				return fmt.Errorf("axiomatize %s: the instance must bind new variables and give a term for every parameter", n)
+			}
+			txt = "forall " + ibind + " :: " + m[3] + " " + strings.Join(guards, " && ") + " && " + body
+		}
 		x, err := parseSpec(txt)
 		if err != nil {
 			return fmt.Errorf("axiomatize %s: %v in %s", n, err, txt)
 		}
-		e.axiomDecls = append(e.axiomDecls, &AxiomDecl{Group: m[1], Name: m[2], Clause: Clause{Label: m[2], Src: txt, X: x, Props: c.Props}, Pkg: c.Pkg, Lemma: true, From: []string{"<lemma function " + n + ">"}, ByFunc: n})
+		e.axiomDecls = append(e.axiomDecls, &AxiomDecl{Group: m[1], Name: m[2], Clause: Clause{Label: m[2], Src: txt, X: x, Props: c.Props}, Pkg: c.Pkg, Lemma: true, From: []string{"<lemma function " + n + ">"}, ByFunc: n, HeapInst: heapInst})
 	}
 	for _, a := range e.axiomDecls {
 		st := e.newState()
@@ -158,6 +206,32 @@ func (e *Engine) finishContracts() (err error) {
 		for _, c := range st.cmds {
 			if strings.HasPrefix(c, "(declare-const") {
 				return fmt.Errorf("axiom %s depends on program state", a.Name)
+			}
+		}
+		for _, hi := range a.HeapInst {
+			// instance of a lemma: the bound heap is (store ... (store K base arr) ...) for the bound array variables
+			for i, id := range st.bind.ids {
+				if id != hi[0] {
+					continue
+				}
+				name := "hb_" + sanitize(id)
+				k := "K_" + sanitize(id)
+				e.d.add("const:"+k, "(declare-const "+k+" "+st.bind.sorts[i]+")")
+				inst := k
+				for _, h2 := range a.HeapInst {
+					if h2[0] != id {
+						continue
+					}
+					bv := regexp.MustCompile(`q_` + regexp.QuoteMeta(h2[2]) + `![0-9]+`).FindString(t)
+					if bv == "" {
+						return fmt.Errorf("axiom %s: instance heap: no bound variable %s", a.Name, h2[2])
+					}
+					inst = "(store " + inst + " " + h2[1] + " " + bv + ")"
+				}
+				t = regexp.MustCompile(regexp.QuoteMeta(name)+`\b`).ReplaceAllLiteralString(t, inst)
+				st.bind.ids = append(st.bind.ids[:i:i], st.bind.ids[i+1:]...)
+				st.bind.sorts = append(st.bind.sorts[:i:i], st.bind.sorts[i+1:]...)
+				break
 			}
 		}
 		if len(st.bind.ids) > 0 {
@@ -530,7 +604,7 @@ func (e *Engine) checkProperty(id, tier string, seed int, only string) int {
 	cov := map[string]interface{}{
 		"obligations": nSites, "discharged": okSites,
 		"obligation_instances": len(obls), "functions_under_contract": fnames,
-		"checker_cmd":     fmt.Sprintf("bin/p9vc check %s --tier %s  (per obligation: z3 -T:%d | z3-new -T:%d | cvc5 --tlimit=%d, first definite answer)", id, tier, timeout, timeout, timeout*1000),
+		"checker_cmd":     fmt.Sprintf("bin/p9vc check %s --tier %s  (per obligation: z3 4.8.12 for 2 s, then z3 4.8.12 | z3 5.1.0 | both again with smt.random_seed=7 | cvc5 1.0, %d s each or the contract's own budget if larger, first definite answer)", id, tier, timeout),
 		"trusted_base":    trusted,
 		"samples":         samples,
 		"solver_time_s":   round3(solverTime),
